@@ -87,7 +87,7 @@ class System:
                 ops.append(('string', p, 'Q'))
             if n.kind in ('C', 'E'):
                 k = len(n.args)
-                ops.append(('aappend', p, '{n}'))
+                ops.append(('aappend', p, '{{n}}'))
                 ops.append(('ainsert', p, 0, '[o]'))
                 if full:
                     ops.append(('ainsert', p, k, '{a}'))
